@@ -128,7 +128,8 @@ Exec(s) ==
   CASE op = "nop" -> Adv(s)
     [] op = "push" -> Adv(Push(s, c.v.val))
     [] op = "pop" -> IF PSIsEmpty(s.stack) THEN Panic(s, "pop on empty stack") ELSE Adv(Pop(s))
-    [] op = "dup" -> IF PSIsEmpty(s.stack) THEN Panic(s, "dup on empty stack") ELSE Adv(Push(s, Top(s)))
+    [] op = "dup" -> IF PSIsEmpty(s.stack) THEN Panic(s, "dup on empty stack")
+                     ELSE Adv(Push(Push(Pop(s), Top(s)), Top(s)))      \* v := pop(); push(v); push(v)
     [] op = "const" -> IF PSIsEmpty(s.stack) THEN Panic(s, "const on empty stack") ELSE Adv(Push(Pop(s), c.v.val))
     [] op = "load" ->
          LET b == RegBase(s, c.v) IN
